@@ -225,8 +225,17 @@ GenesisOK ==
            /\ S_ctx(i) = ctx
            /\ S_params(i) = params
            /\ i.anom = <<>>
-           \* nothing else is imported
-           /\ i.req = <<>> /\ i.actId = <<>> /\ i.newQ = <<>> /\ i.expQ = <<>> /\ i.earned = <<>>
+
+\* C15 on the imported state: the ownership indexes and stored price terms of a fresh
+\* application that imported the genesis are consistent with its bindings
+ImportedIndexesOK ==
+    (ev'.name = "Genesis" /\ ev'.gen.importok) =>
+        LET i == ev'.gen.imp
+            b == S_bind(i)
+            po == S_powner(i)
+        IN /\ \A k \in DOMAIN b : b[k].sp = b[k].pr /\ k[2] \in DOMAIN po /\ po[k[2]] = b[k].owner
+           /\ S_obind(i) = {<<b[k].owner, k[1], k[2]>> : k \in DOMAIN b}
+           /\ S_oprov(i) = {<<po[p], p>> : p \in DOMAIN po}
 
 -----------------------------------------------------------------------------
 (* verdicts: the property formulas, evaluated on the implementation's step *)
@@ -240,6 +249,7 @@ NoAnomaly(id) == \A i \in DOMAIN Trace[l + 1].st.anom :
 AfterStop == stopped'
 
 Holds(p) ==
+    IF AfterStop /\ p = "C15" THEN ImportedIndexesOK ELSE
     IF AfterStop /\ p \notin {"C19", "C20"} THEN TRUE ELSE
     CASE p = "C01" -> Inv_C01' /\ Step_C01
       [] p = "C02" -> Step_C02
